@@ -76,7 +76,7 @@ theorem spec_create_deadline (c : Cfg) (now : Int) (k : Nat) :
       match c.expiry with
       | .none => maxI64
       | .creating d | .writing d | .accessing d => satAdd now d
-      | .custom => satAdd now (c.expCreate.get k) := by
+      | .custom => if c.expCreate.get k > 0 then satAdd now (c.expCreate.get k) else maxI64 := by
   unfold expAfterWrite; cases c.expiry <;> rfl
 
 theorem spec_update_deadline_creating (c : Cfg) (now : Int) (k : Nat) (o : Entry) (d : Int)
